@@ -10,7 +10,8 @@ Inductive c07_case :=
 | mkC07 (first kept bundle : N) (root : block) (arrival : list block) (a0 hubstart merged : N)
         (mode : N) (start : Z) (cur : option cursor) (live : list event)
         (stop filt custom : N) (pauses : list (N * N))
-        (canon forked : list block) (events : list event) (pushed : list N) (err : N).
+        (canon forked : list block) (events : list event) (pushed : list N) (err : N)
+        (altered : N).   (* W3: 1-based index of the first delivered block that is not the stored block (payload included), 0 = none *)
 
 (* stable insertion sort by block number *)
 Fixpoint insert_num (b : block) (l : list block) : list block :=
@@ -34,7 +35,7 @@ Definition initial_world (first kept : N) (root : block) (arrival : list block) 
 Definition c07_model (k : c07_case) : option (list event * N) :=
   match k with
   | C07Skip => None
-  | mkC07 first kept bundle root arrival a0 hubstart merged mode start cur live stop filt custom pauses canon forked events pushed err =>
+  | mkC07 first kept bundle root arrival a0 hubstart merged mode start cur live stop filt custom pauses canon forked events pushed err _ =>
       match initial_world first kept root arrival a0 hubstart with
       | None => None
       | Some w =>
@@ -48,7 +49,7 @@ Definition c07_model (k : c07_case) : option (list event * N) :=
 Definition c07_corresponds (k : c07_case) : bool :=
   match k with
   | C07Skip => true
-  | mkC07 _ _ _ _ _ _ _ _ _ _ _ _ _ _ _ _ _ _ events _ err =>
+  | mkC07 _ _ _ _ _ _ _ _ _ _ _ _ _ _ _ _ _ _ events _ err _ =>
       match c07_model k with
       | Some (evs, e) =>
           (* StepIndex / StepCount are not observed at the stream's handler *)
@@ -88,7 +89,7 @@ Definition has_nu (filt custom : N) : bool :=
 Definition c07_prop (k : c07_case) : bool :=
   match k with
   | C07Skip => true
-  | mkC07 first kept bundle root arrival a0 hubstart merged mode start cur live stop filt custom pauses canon forked events pushed err =>
+  | mkC07 first kept bundle root arrival a0 hubstart merged mode start cur live stop filt custom pauses canon forked events pushed err _ =>
       if err =? 2 then true else       (* rejected arguments: C13 *)
       if filt =? 0 then
         (* default filter: undo/new discipline from the implied consumer state *)
@@ -151,7 +152,7 @@ Definition c07_prop (k : c07_case) : bool :=
 Definition c13_prop (k : c07_case) : bool :=
   match k with
   | C07Skip => true
-  | mkC07 first kept bundle root arrival a0 hubstart merged mode start cur live stop filt custom pauses canon forked events pushed err =>
+  | mkC07 first kept bundle root arrival a0 hubstart merged mode start cur live stop filt custom pauses canon forked events pushed err _ =>
       let c := mkJ first kept bundle mode start cur stop filt custom in
       (* filters only remove: every delivered event matches *)
       forallb (fun e => filter_pass c (estep e)) events &&
@@ -175,10 +176,145 @@ Definition c13_prop (k : c07_case) : bool :=
       (negb ((filt =? 1) && negb (mode =? 0) && match cur with Some cu => negb (on_final_block cu) | None => false end) || (err =? 2))
   end.
 
-Definition c07_hung (k : c07_case) : bool := match k with mkC07 _ _ _ _ _ _ _ _ _ _ _ _ _ _ _ _ _ _ _ _ err => err =? 4 | _ => false end.
+Definition c07_hung (k : c07_case) : bool := match k with mkC07 _ _ _ _ _ _ _ _ _ _ _ _ _ _ _ _ _ _ _ _ err _ => err =? 4 | _ => false end.
 
+(* ================= W3 (conclusion audit): second clauses next to c07_prop / c13_prop =================
+   c07_prop / c13_prop (and cons_fold_aside, final_fold, has_nu, which theorems speak about) are unchanged; the verdicts
+   below evaluate them AND the clauses of this section.  Each clause closes a place where a hand-made breaking change of the
+   library passed with exit 0 or only as a model mismatch (notes_proof_W3.md, section C07/C13). *)
+
+Definition is_nu_ev (e : event) : bool := matches_new (estep e) || matches_undo (estep e).
+Definition as_new_ev (e : event) : event :=
+  match estep e with SNewIrr => mkEv SNew (eblk e) (ecblk e) (ehead e) (elib e) None 0 0 | _ => e end.
+
+(* the absolute start block: resolveNegativeStartBlockNum against the head the reference hub reports at stream start,
+   clamped at the first streamable block *)
+Definition w3_abs_start (first kept : N) (root : block) (arrival : list block) (a0 hubstart : N) (start : Z) : option N :=
+  match initial_world first kept root arrival a0 hubstart with
+  | Some w => Some (abs_start first start (match hub_head (w_hub w) with Some (r, _) => rn r | None => 0 end))
+  | None => None
+  end.
+
+(* "every canonical block from the start point on": the first block delivered for the first time (New / new+irreversible) is at
+   or above the start block and no canonical block lies between the start block and it.  (Stated with numbers, not ids: a live
+   start may legitimately begin on a short-lived fork block of that height.) *)
+Definition w3_start_ok (abs : N) (canon : list block) (events : list event) : bool :=
+  match filter (fun e => matches_new (estep e)) events with
+  | e :: _ => (abs <=? bnum (eblk e)) &&
+              negb (existsb (fun b => (abs <=? bnum b) && (bnum b <? bnum (eblk e))) canon)
+  | [] => true
+  end.
+
+(* completeness, every filter: when the MODEL's run on this very input ends normally (waiting, or stop block reached) its last
+   delivered event is the witness that files and hub covered the chain up to it; a run of the implementation that ends WAITING
+   (err 0) must have delivered that event too (same step, same block) *)
+Definition w3_complete (k : c07_case) (events : list event) (err : N) : bool :=
+  if negb (err =? 0) then true else
+  match c07_model k with
+  | Some (mevs, me) =>
+      if (me =? 0) || (me =? 1) then
+        match rev mevs with
+        | last :: _ => existsb (fun e => step_eqb (estep e) (estep last) && (bid (eblk e) =? bid (eblk last))) events
+        | [] => true
+        end
+      else true
+  | None => true
+  end.
+
+(* the undo/new discipline of c07_prop for CUSTOM filters that let New and Undo through (c07_prop says `true` for every
+   custom filter): the New / new+irreversible / Undo events of the delivered sequence fold through the same consumer *)
+Definition w3_custom_nu (k : c07_case) : bool :=
+  match k with
+  | C07Skip => true
+  | mkC07 first kept bundle root arrival a0 hubstart merged mode start cur live stop filt custom pauses canon forked events pushed err _ =>
+      if (err =? 2) || negb ((filt =? 2) && has_nu filt custom) then true else
+      let init := if mode =? 1 then
+                    match cons_fold cons0 live, cur with
+                    | Some ck0, Some cu => Some (mkCons (cs_stack ck0) 0 false)
+                    | _, _ => None
+                    end
+                  else Some cons0 in
+      match init with
+      | None => false
+      | Some c0 => match cons_fold_aside c0 (map as_new_ev (filter is_nu_ev events)) with Some _ => true | None => false end
+      end
+  end.
+
+Definition w3_start_clause (k : c07_case) : bool :=
+  match k with
+  | C07Skip => true
+  | mkC07 first kept bundle root arrival a0 hubstart merged mode start cur live stop filt custom pauses canon forked events pushed err _ =>
+      if err =? 2 then true else
+      match w3_abs_start first kept root arrival a0 hubstart start with
+      | None => true
+      | Some abs =>
+          (* filters that let New through; from a block number or through a target cursor (from a cursor the start point is the
+             consumer state of the cursor: c07_prop / w3_custom_nu) *)
+          (if ((mode =? 0) || (mode =? 2)) && ((filt =? 0) || ((filt =? 2) && negb (N.land custom 1 =? 0)))
+           then
+             (* through a target cursor whose block was undone and whose remaining branch lies below the start block the hub
+                replays the end of that fork (undo of a block below the start, New of its canonical sibling below the start:
+                seed 5, case 1012 - start above the junction, outside C05's "start at or below the junction"); deliveries
+                below the start block are set aside there, as c07_prop does for final blocks *)
+             w3_start_ok abs canon (if mode =? 2 then filter (fun e => abs <=? bnum (eblk e)) events else events)
+           else true) &&
+          (* final blocks only from a NEGATIVE start (c07_prop has the clause for start >= 0 only) *)
+          (if (filt =? 1) && (mode =? 0) && (start <? 0)%Z then
+             match filter (fun e => abs <=? bnum (eblk e)) events, filter (fun b => abs <=? bnum b) canon with
+             | e :: _, f :: _ => bid (eblk e) =? bid f
+             | _, _ => true
+             end
+           else true)
+      end
+  end.
+
+Definition c07_altered (k : c07_case) : bool :=
+  match k with mkC07 _ _ _ _ _ _ _ _ _ _ _ _ _ _ _ _ _ _ _ _ _ altered => negb (altered =? 0) | _ => false end.
+
+Definition c07_prop_w3 (k : c07_case) : bool :=
+  match k with
+  | C07Skip => true
+  | mkC07 _ _ _ _ _ _ _ _ _ _ _ _ _ _ _ _ _ _ events _ err _ =>
+      w3_custom_nu k && w3_start_clause k && w3_complete k events err
+  end.
+
+Definition c13_prop_w3 (k : c07_case) : bool :=
+  match k with
+  | C07Skip => true
+  | mkC07 first kept bundle root arrival a0 hubstart merged mode start cur live stop filt custom pauses canon forked events pushed err _ =>
+      (* a start after the stop is rejected as an invalid argument (every mode: createSource checks it before looking at the cursor) *)
+      (match w3_abs_start first kept root arrival a0 hubstart start with
+       | Some abs => (stop =? 0) || negb (stop <? abs) || (err =? 2)
+       | None => true end) &&
+      ((stop =? 0) ||
+       (* an event for a block of height S is followed by nothing (the clause of c13_prop for this is vacuous: `|| true`) ... *)
+       (match rev events with
+        | _ :: before => forallb (fun e => negb (bnum (eblk e) =? stop)) before
+        | [] => true end &&
+        (* ... and the stream then ends with stop-block-reached, not with another error class (c13_prop tolerates class 3) *)
+        (negb (existsb (fun e => bnum (eblk e) =? stop) events) || (err =? 1)) &&
+        (* "ends with the stop-block-reached error, whether S is reached in files or live", also when the step filter removed
+           block S or S is a skipped number: the model's run on this input ending stop-block-reached is the witness that the
+           stream got to the stop block *)
+        (match c07_model k with
+         | Some (mevs, me) =>
+             negb (me =? 1) || (err =? 1) ||
+             (* a run that delivered nothing and WAITS for a merged file, where the model delivers nothing either, is left to the
+                model comparison (code 1): resumed from a cursor that lies above the stop block AND beyond the last merged
+                file, the real file source polls for the cursor's bundle before it can meet its stop marker, while the model
+                answers stop-block-reached (pre-existing disagreement on the unchanged library: C13 --seed 7 --n 1000 case 751,
+                notes_proof_W3.md W3-C13-M1) *)
+             ((err =? 0) && match events, mevs with [], [] => true | _, _ => false end)
+         | None => true end))) &&
+      (* negative start / first streamable block: the start point *)
+      w3_start_clause k &&
+      w3_complete k events err
+  end.
+
+(* code 5: a delivered block is not the stored block (same id, altered content) *)
 Definition c07_verdict (k : c07_case) : N :=
-  if c07_hung k then 4 else (if c07_corresponds k then 0 else 1) + (if c07_prop k then 0 else 2).
+  if c07_hung k then 4 else if c07_altered k then 5 else
+  (if c07_corresponds k then 0 else 1) + (if c07_prop k && c07_prop_w3 k then 0 else 2).
 Definition c07_verdicts (l : list c07_case) := nonzero (map c07_verdict l).
 (* known finding C13-target-cursor-beyond-stop: through a TARGET cursor whose block lies beyond the stop block S the
    consumer holds nothing of the chain, so "delivers block S itself when it exists" applies — but the through-cursor
@@ -196,8 +332,8 @@ Definition c13_target_beyond_stop (k : c07_case) : bool :=
   end.
 
 Definition c13_verdict (k : c07_case) : N :=
-  if c07_hung k then 4 else
-  let base := (if c07_corresponds k then 0 else 1) + (if c13_prop k then 0 else 2) in
+  if c07_hung k then 4 else if c07_altered k then 5 else
+  let base := (if c07_corresponds k then 0 else 1) + (if c13_prop k && c13_prop_w3 k then 0 else 2) in
   if (base =? 0) && c13_target_beyond_stop k then 6 else base.
 Definition c13_verdicts (l : list c07_case) := nonzero (map c13_verdict l).
 Definition c07_in_scope (k : c07_case) : bool := match k with C07Skip => false | _ => true end.
